@@ -116,6 +116,12 @@ def run(c: Check):
         c.violation("C02:neutral-edit-changes-identifier:meta-parameter-in-diamond",
                     "class Diamond(DLeft, DRight): DLeft re-declares x as Meta; changing x must not change the identifier (and z must)",
                     dict(probe="harness/drive_typeprobe.py", got=pr3))
+    md = pr3["meta_in_default"]
+    if len(set(md)) != 1:
+        c.violation("C02:neutral-edit-changes-identifier:unset-vs-explicit-default:meta-flagged-member-of-default",
+                    "MHolder.l: Param[List[MLeaf]] = [setmeta(MLeaf(x=1), True)]: MHolder(), MHolder(l=<the same default>), "
+                    "MHolder(l=[]) and MHolder().copy() must share one identifier (a meta-flagged member is outside the signature)",
+                    dict(probe="harness/drive_typeprobe.py", got=pr3))
     nd = pr3["none_default"]
     if nd[0] != nd[1] or nd[0] == nd[2] or pr3["none_default_value"] is not None:
         c.violation("C02:neutral-edit-changes-identifier:unset-vs-explicit-default:none-inside-default",
